@@ -231,9 +231,54 @@ def dataclass_default_insts(ctx, cls: str, rid: str, written: Optional[set] = No
     return insts
 
 
+def _dict_items(n):
+    """[(key, value)] of a dict built in one expression from string-keyed displays: {"a": x}, dict(a=x), dict(<such a dict>, b=y),
+    {**<such a dict>, "b": y} (a later key replaces an earlier one, at the earlier one's place); None for anything else"""
+    items = []
+
+    def put(k, v):
+        for i, (k0, _) in enumerate(items):
+            if k0 == k:
+                items[i] = (k, v)
+                return
+        items.append((k, v))
+    if isinstance(n, ast.Dict):
+        for k, v in zip(n.keys, n.values):
+            if k is None:
+                sub = _dict_items(v)
+                if sub is None:
+                    return None
+                for kk, vv in sub:
+                    put(kk, vv)
+            elif isinstance(k, ast.Constant) and isinstance(k.value, str):
+                put(k.value, v)
+            else:
+                return None
+        return items
+    if isinstance(n, ast.Call) and isinstance(n.func, ast.Name) and n.func.id == "dict" and len(n.args) <= 1 and all(k.arg for k in n.keywords):
+        if n.args:
+            sub = _dict_items(n.args[0])
+            if sub is None:
+                return None
+            for kk, vv in sub:
+                put(kk, vv)
+        for k in n.keywords:
+            put(k.arg, k.value)
+        return items
+    return None
+
+
+def _nested_dict(n) -> bool:
+    return (isinstance(n, ast.Call) and isinstance(n.func, ast.Name) and n.func.id == "dict" and len(n.args) == 1) or \
+        (isinstance(n, ast.Dict) and any(k is None for k in n.keys))
+
+
 def as_dict(n):
     """a dict display, whichever way it is written: {"a": x} as it stands, dict(a=x) (the spelling the model canonicalises
     identifier-keyed displays to) as the equivalent ast.Dict; None for anything else"""
+    if _nested_dict(n) and _dict_items(n):
+        it = _dict_items(n)
+        return ast.copy_location(ast.Dict(keys=[ast.copy_location(ast.Constant(value=k), v) for k, v in it], values=[v for _, v in it]), n)
     if isinstance(n, ast.Dict):
         return n
     if isinstance(n, ast.Call) and isinstance(n.func, ast.Name) and n.func.id == "dict" and not n.args and n.keywords and all(k.arg for k in n.keywords):
@@ -245,6 +290,10 @@ def as_dict(n):
 def as_dict_call(n):
     """the other direction of as_dict: dict(a=x) as it stands, {"a": x} (every key a string) as the equivalent dict(..) call node;
     None for anything else"""
+    if _nested_dict(n) and _dict_items(n):
+        c = ast.Call(func=ast.copy_location(ast.Name(id="dict", ctx=ast.Load()), n), args=[],
+                     keywords=[ast.copy_location(ast.keyword(arg=k, value=v), v) for k, v in _dict_items(n)])
+        return ast.copy_location(c, n)
     if isinstance(n, ast.Call) and isinstance(n.func, ast.Name) and n.func.id == "dict" and not n.args and all(k.arg for k in n.keywords):
         return n
     if isinstance(n, ast.Dict) and n.keys and all(isinstance(k, ast.Constant) and isinstance(k.value, str) for k in n.keys):
